@@ -59,6 +59,8 @@ type spyState struct {
 	inner       []json.Options
 	called      int
 	inside      []got
+	joined1     json.Options // JoinOptions(coder.Options()) taken inside the call
+	joined2     json.Options // JoinOptions(coder.Options(), JoinOptions()) taken inside the call
 	afterNested []got
 	nested      bool
 	child       *spyState
@@ -76,6 +78,8 @@ func (s *Spy) MarshalJSONTo(enc *jsontext.Encoder) error {
 	st := s.st
 	st.called++
 	st.inside = snapshot(enc.Options())
+	st.joined1 = json.JoinOptions(enc.Options())
+	st.joined2 = json.JoinOptions(enc.Options(), json.JoinOptions())
 	switch st.mode {
 	case modeErr:
 		return errSpy
@@ -122,6 +126,8 @@ func (s *Spy) UnmarshalJSONFrom(dec *jsontext.Decoder) error {
 	st := s.st
 	st.called++
 	st.inside = snapshot(dec.Options())
+	st.joined1 = json.JoinOptions(dec.Options())
+	st.joined2 = json.JoinOptions(dec.Options(), json.JoinOptions())
 	switch st.mode {
 	case modeErr:
 		return errSpy
@@ -332,6 +338,9 @@ func RunScope(c SCase) error {
 	}
 
 	before := snapshot(options())
+	// A joined value is a map of its own: what it reports is what was joined,
+	// whatever happens to the coder afterwards.
+	joinedBefore := json.JoinOptions(options())
 	if err := checkSuperset("fresh coder", before, mBase, SCase{Base: c.Base}); err != nil {
 		return err
 	}
@@ -407,6 +416,13 @@ func RunScope(c SCase) error {
 		if err := checkSuperset("user code", st.inside, mAll, c); err != nil {
 			return err
 		}
+		for i, j := range []json.Options{st.joined1, st.joined2} {
+			if d := diffSnap(snapshot(j), st.inside); d != "" {
+				return fmt.Errorf("%s: JoinOptions(coder.Options()%s) taken inside user code reports other values once the call has ended (now vs when joined:%s); coder options %s, call options %s",
+					c.Dir, []string{"", ", JoinOptions()"}[i], d, seqString(c.Base), seqString(c.Extra))
+			}
+		}
+		rec.Class("scope:joined-inside-call-is-a-copy")
 		if st.nested {
 			if c.Where%nWhere == 4 {
 				// The `string` tag applies to the top-level value of the
@@ -445,6 +461,10 @@ func RunScope(c SCase) error {
 	}
 	if err := checkSuperset("Reset(coder.Options(), call options...)", after, mAll, c); err != nil {
 		return err
+	}
+	if d := diffSnap(snapshot(joinedBefore), before); d != "" {
+		return fmt.Errorf("%s: JoinOptions(coder.Options()) taken from the fresh coder reports other values after the coder was Reset with further options (now vs when joined:%s); coder options %s, reset options %s",
+			c.Dir, d, seqString(c.Base), seqString(c.Extra))
 	}
 	if p == nil && errB == nil {
 		rec.Class("scope:user-code-call:ok")
